@@ -1,6 +1,7 @@
 import collections.abc
 from contextlib import suppress
 from dataclasses import dataclass
+from enum import Enum
 from typing import Any, Callable, MutableMapping, NamedTuple, Optional, TypeVar, Union
 
 from apischema.cache import CacheAwareDict
@@ -82,6 +83,7 @@ def default_type_name(tp: AnyType) -> Optional[TypeName]:
         and (
             not isinstance(tp, type)
             or not issubclass(tp, collections.abc.Collection)
+            or issubclass(tp, Enum)  # enum mixed with str
             or is_named_tuple(tp)
             or is_typed_dict(tp)
         )
